@@ -707,22 +707,47 @@ def concat(node: ir.Node, op, state: OptimizerState) -> ReturnValue:
             return False
         return dim_size == 0  # return False if symbolic or None or non-zero int value
 
-    new_inputs = [x for x in inputs if not has_zero_size(x)]
-    if len(new_inputs) != len(inputs):
-        if new_inputs:
+    def same_except_axis(operand: ir.Value | None, reference: ir.Value | None) -> bool:
+        """The dims of operand, other than the concatenation axis, are known to be equal to
+        those of reference: dropping operand drops no shape check that Concat would make."""
+        if operand is None or reference is None:
+            return False
+        shape, ref_shape = operand.shape, reference.shape
+        if shape is None or ref_shape is None or len(shape) != len(ref_shape):
+            return False
+        rank = len(shape)
+        if not -rank <= axis < rank:  # type: ignore[operator]
+            return False
+        for i, (dim, ref_dim) in enumerate(zip(shape, ref_shape)):
+            if i == axis % rank:  # type: ignore[operator]
+                continue
+            if isinstance(dim, int) or isinstance(ref_dim, int):
+                if dim != ref_dim:
+                    return False
+            elif dim.value is None or dim.value != ref_dim.value:
+                return False
+        return True
+
+    zero_size = [has_zero_size(x) for x in inputs]
+    if any(zero_size):
+        # A zero-length operand contributes no element, but Concat still requires its other
+        # dimensions to match: drop it only if they are known to match those of an operand
+        # that is kept (the first operand with elements, or the first operand if none has any).
+        ref_index = zero_size.index(False) if False in zero_size else 0
+        reference = inputs[ref_index]
+        new_inputs = [
+            x
+            for i, x in enumerate(inputs)
+            if not zero_size[i] or i == ref_index or not same_except_axis(x, reference)
+        ]
+        if len(new_inputs) != len(inputs):
             # Remove zero-length operands from Concat
             logger.debug(
                 "Concat: removing zero-length operand(s) %s => %s", inputs, new_inputs
             )
+            if len(new_inputs) == 1:
+                return op.Identity(new_inputs[0])
             return op.Concat(*new_inputs, axis=axis)
-        elif inputs:
-            # All operands are zero-length. Concat is a no-op, but we need to use one of the
-            # inputs to get the other dimensions correct:
-            logger.debug("Concat: removing all zero-length operands %s", inputs)
-            return op.Identity(inputs[0])
-        else:
-            # No inputs: invalid model.
-            return None
 
     # Track value of tensors that carry a shape value:
 
